@@ -1,5 +1,6 @@
 """C01 — every reported match is a genuine rigid-motion image of the pattern."""
 import numpy as np
+from hypothesis import strategies as st
 
 from mv import gen_geom, geom, mf, ref_match
 from mv.runner import HypPart, Violation
@@ -102,8 +103,70 @@ def classify_case(case, nmatches, stats, nt=None):
         stats.mark_nontrivial(case)
 
 
+@st.composite
+def edit_case(draw):
+    """a planted case plus in-place edits of the structure object between two searches (histories on one object)"""
+    case = draw(gen_geom.planted(max_copies=3))
+    N = len(case["spos"])
+    types = list(dict.fromkeys(case["sels"]))
+    edits = []
+    for _ in range(draw(st.integers(1, 3))):
+        kind = draw(st.sampled_from(["retype", "retype", "swap-positions"]))
+        if kind == "retype":
+            edits.append(["retype", draw(st.integers(0, N - 1)), draw(st.integers(0, len(types) - 1))])
+        else:
+            edits.append(["swap-positions", draw(st.integers(0, N - 1)), draw(st.integers(0, N - 1))])
+    case["edits"] = edits
+    return case
+
+
+def apply_edits(case, s):
+    """edits the mofun object in place (the idiom mofun itself uses in Atoms.extend) and returns the edited case"""
+    case2 = dict(case)
+    sels, spos = list(case["sels"]), [list(p) for p in case["spos"]]
+    types = list(dict.fromkeys(case["sels"]))
+    for e in case["edits"]:
+        if e[0] == "retype":
+            s.atom_types[e[1]] = e[2]
+            sels[e[1]] = types[e[2]]
+        else:
+            i, j = e[1], e[2]
+            tmp = s.positions[i].copy()
+            s.positions[i] = s.positions[j]
+            s.positions[j] = tmp
+            spos[i], spos[j] = spos[j], spos[i]
+    case2["sels"], case2["spos"] = sels, spos
+    return case2
+
+
+def edit_oracle(case, stats, completeness=False):
+    atol, hints, seeds = case["atol"], case["hints"], case["seeds"]
+    s = mf.atoms_from(case["spos"], case["sels"], case["cell"])
+    p = mf.atoms_from(case["ppos"], case["pels"])
+    mf.find(s, p, atol, hints, seeds, positions=True)             # first search on the fresh object
+    case2 = apply_edits(case, s)
+    try:
+        groups = ref_match.find_all(case2["cell"], case2["spos"], case2["sels"], case2["ppos"], case2["pels"], atol,
+                                    in_thr=ref_match.in_threshold(case2["ppos"], hints, atol))
+    except ref_match.TooAmbiguous:
+        stats.count("skipped:reference-budget")
+        return
+    idx, pos, rots = mf.find(s, p, atol, hints, seeds, positions=True, what="search-after-in-place-edit")
+    if completeness:
+        from props.c02 import compare
+        compare(case2, idx, groups, stats)
+    else:
+        check_matches(case2, idx, pos, rots, groups, stats)
+    stats.count("edits:%d" % len(case["edits"]))
+    for e in case["edits"]:
+        stats.count("edit:" + e[0])
+    if len(idx) >= 1 or groups:
+        stats.mark_nontrivial(case)
+
+
 KNOWN_SIGS = {}
 
 PARTS = [
     HypPart("planted", lambda tier: gen_geom.planted(), oracle, {"quick": 8000, "thorough": 80000}),
+    HypPart("edit-then-search", lambda tier: edit_case(), edit_oracle, {"quick": 1500, "thorough": 15000}),
 ]
